@@ -1,32 +1,192 @@
-(* C08 -- ill-formed documents are rejected: the character classes are the Fifth Edition tables.
-   The statement is pinned here; the proof is Proofs/CharTablesProofs.v.  The model's tables
-   come from Generated.v, i.e. from /repo/src/tokenizer.rs as it is now. *)
-From Coq Require Import NArith.
-From RX.Model Require Import Base CharClass.
+(* C08 -- ill-formed documents are rejected.  (1) the three character classes are the Fifth Edition
+   productions for every scalar value (tables regenerated from the source on every run);
+   (2) local rejection theorems, 'accepted implies constraint': comment bodies, ']]>' in text, misplaced
+   declaration, '<' in attribute values, every consumed character is a Char, end tags match the open
+   element and cannot close an element opened outside the current entity, reserved prefixes and URIs,
+   entity references are declared (first declaration wins), and the document-level token shape: only
+   comments / PIs (and entity declarations) before the root, at most one root element, only
+   comments / PIs after it.
+   Statements are pinned here (copied verbatim from the proof files by tools/pin_props.py);
+   each is re-proved by `exact` and followed by Print Assumptions. *)
+From Coq Require Import Ascii String.
+From Coq Require Import List NArith Bool PeanoNat Sorted.
+Import ListNotations.
+From RX Require Import Generated.
+From RX.Model Require Import Base CharClass Stream Tokenizer Doc Builder Parse Api.
 From RX.Spec Require Chars.
-From RX.Proofs Require Import CharTablesProofs.
+From RX.Proofs Require Import CharTablesProofs RejectProofs.
 Open Scope N_scope.
 
-Theorem C08_char_tables_conform : forall c : N, Chars.scalar c = true ->
+(* ---- Proofs/CharTablesProofs.v ---- *)
+Theorem C08_char_tables_conform :
+  forall c : N, Chars.scalar c = true ->
   char_is_char c = Chars.xml_Char c /\
   char_is_name_start c = Chars.xml_NameStartChar c /\
   char_is_name c = Chars.xml_NameChar c.
 Proof. exact char_tables_conform. Qed.
 Print Assumptions C08_char_tables_conform.
 
-Theorem C08_byte_tables_conform : forall x : N, x < 128 ->
+Theorem C08_byte_tables_conform :
+  forall x : N, x < 128 ->
   byte_is_char x = Chars.xml_Char x /\
   byte_is_name_start x = Chars.xml_NameStartChar x /\
   byte_is_name x = Chars.xml_NameChar x.
 Proof. exact byte_tables_conform. Qed.
 Print Assumptions C08_byte_tables_conform.
 
-Theorem C08_byte_space_conform : forall x : N, byte_is_space x = Chars.xml_S x.
+Theorem C08_byte_space_conform :
+  forall x : N, byte_is_space x = Chars.xml_S x.
 Proof. exact byte_space_conform. Qed.
 Print Assumptions C08_byte_space_conform.
 
-Theorem C08_byte_char_agree : forall x : N, x < 128 ->
-  byte_is_char x = char_is_char x /\ byte_is_name_start x = char_is_name_start x /\
-  byte_is_name x = char_is_name x.
+Theorem C08_byte_char_agree :
+  forall x : N, x < 128 ->
+  byte_is_char x = char_is_char x /\ byte_is_name_start x = char_is_name_start x /\ byte_is_name x = char_is_name x.
 Proof. exact byte_char_agree. Qed.
 Print Assumptions C08_byte_char_agree.
+
+(* ---- Proofs/RejectProofs.v ---- *)
+Module G1.
+Local Notation token := Tokenizer.token.
+Theorem C08_ok_comment_body :
+  forall text s acc s' acc',
+  parse_comment text (list token) rec_ev s acc = Ok (s', acc') ->
+  exists txt r, acc' = acc ++ [TComment txt r] /\
+    contains_b (b "--") (slice_bytes text txt) = false /\
+    ends_with_byte 45 (slice_bytes text txt) = false.
+Proof. exact ok_comment_body. Qed.
+Print Assumptions C08_ok_comment_body.
+
+Theorem C08_ok_text_no_cdata_end :
+  forall text s acc s' acc',
+  parse_text text (list token) rec_ev s acc = Ok (s', acc') ->
+  exists txt r, acc' = acc ++ [TText txt r] /\
+    contains_b (b "]]>") (slice_bytes text txt) = false.
+Proof. exact ok_text_no_cdata_end. Qed.
+Print Assumptions C08_ok_text_no_cdata_end.
+
+Theorem C08_ok_pi_not_declaration :
+  forall text s acc s' acc',
+  parse_pi text (list token) rec_ev s acc = Ok (s', acc') ->
+  starts_with s (b "<?xml ") = false.
+Proof. exact ok_pi_not_declaration. Qed.
+Print Assumptions C08_ok_pi_not_declaration.
+
+Theorem C08_ok_no_lt_in_attr :
+  forall text s acc open s' acc',
+  s_rest s = skipn (N.to_nat (s_pos s)) text ->
+  parse_element text (list token) rec_ev s acc = Ok (open, s', acc') ->
+  forall r q e p l v, In (TAttribute r q e p l v) (skipn (length acc) acc') ->
+    mem_b 60 (slice_bytes text v) = false.
+Proof. exact ok_no_lt_in_attr. Qed.
+Print Assumptions C08_ok_no_lt_in_attr.
+
+Theorem C08_skip_chars_only_chars :
+  forall text f s s', skip_chars text f s = Ok s' ->
+  s_pos s <= s_pos s' /\ chars_upto (s_rest s) (s_pos s' - s_pos s).
+Proof. exact skip_chars_only_chars. Qed.
+Print Assumptions C08_skip_chars_only_chars.
+
+Theorem C08_skip_chars_only_chars_text :
+  forall text f s s',
+  s_rest s = skipn (N.to_nat (s_pos s)) text ->
+  skip_chars text f s = Ok s' ->
+  all_chars (sub text (s_pos s) (s_pos s')).
+Proof. exact skip_chars_only_chars_text. Qed.
+Print Assumptions C08_skip_chars_only_chars_text.
+
+Theorem C08_consume_chars_only_chars :
+  forall text f s sl s',
+  s_rest s = skipn (N.to_nat (s_pos s)) text ->
+  consume_chars text f s = Ok (sl, s') ->
+  all_chars (slice_bytes text sl).
+Proof. exact consume_chars_only_chars. Qed.
+Print Assumptions C08_consume_chars_only_chars.
+
+Theorem C08_ok_tags_balanced :
+  forall text prefix local r c c',
+  process_element text (EClose prefix local) r c = Ok c' ->
+  exists pnd ppref,
+    nth_N (d_nodes (c_doc c)) (c_parent_id c) = Some pnd /\
+    hd_error (rev (c_parent_prefixes c)) = Some ppref /\
+    match nd_kind pnd with
+    | KElement _ plocal _ _ =>
+        bytes_eqb (slice_bytes text prefix) (slice_bytes text ppref) = true /\
+        bytes_eqb (slice_bytes text local) (slice_bytes text plocal) = true
+    | _ => True
+    end /\
+    c_entity_floor c < len_N (c_parent_prefixes c).
+Proof. exact ok_tags_balanced. Qed.
+Print Assumptions C08_ok_tags_balanced.
+
+Theorem C08_ok_reserved_names :
+  forall text r qn eq prefix local value c c',
+  process_attribute text r qn eq prefix local value c = Ok c' ->
+  exists v c1, normalize_attribute text value c = Ok (v, c1) /\
+  let pb := slice_bytes text prefix in
+  let lb := slice_bytes text local in
+  let vb := storage_bytes text v in
+  (* xmlns:p='v' *)
+  (bytes_eqb pb xmlns_str = true ->
+     bytes_eqb lb xmlns_str = false /\                              (* xmlns:xmlns refused *)
+     bytes_eqb vb ns_xmlns_uri = false /\                           (* nothing bound to the xmlns URI *)
+     bytes_eqb lb ns_xml_prefix = bytes_eqb vb ns_xml_uri) /\       (* p = xml <-> v = the xml URI *)
+  (* xmlns='v' *)
+  (bytes_eqb pb xmlns_str = false -> bytes_eqb lb xmlns_str = true ->
+     bytes_eqb vb ns_xml_uri = false /\ bytes_eqb vb ns_xmlns_uri = false).
+Proof. exact ok_reserved_names. Qed.
+Print Assumptions C08_ok_reserved_names.
+
+Theorem C08_ok_element_prefix_not_xmlns :
+  forall text ptext prefix local start c c',
+  token_with text ptext (TElementStart prefix local start) c = Ok c' ->
+  bytes_eqb (slice_bytes text prefix) xmlns_str = false.
+Proof. exact ok_element_prefix_not_xmlns. Qed.
+Print Assumptions C08_ok_element_prefix_not_xmlns.
+
+Theorem C08_find_entity_first :
+  forall text es name e, find_entity text es name = Some e ->
+  exists pre post, es = pre ++ e :: post /\
+    bytes_eqb (slice_bytes text (en_name e)) name = true /\
+    forall e', In e' pre -> bytes_eqb (slice_bytes text (en_name e')) name = false.
+Proof. exact find_entity_first. Qed.
+Print Assumptions C08_find_entity_first.
+
+Theorem C08_ok_refs_defined :
+  forall text s es ch s',
+  parse_next_chunk text s es = Ok (ChText ch, s') ->
+  exists e, In e es /\ en_value e = ch.
+Proof. exact ok_refs_defined. Qed.
+Print Assumptions C08_ok_refs_defined.
+
+Theorem C08_ok_refs_defined_first :
+  forall text s es ch s',
+  parse_next_chunk text s es = Ok (ChText ch, s') ->
+  exists name s1 e pre post,
+    consume_reference text s = Ok (Some (RefEntity name, s1)) /\ s' = s1 /\
+    es = pre ++ e :: post /\ en_value e = ch /\
+    bytes_eqb (slice_bytes text (en_name e)) (slice_bytes text name) = true /\
+    forall e', In e' pre -> bytes_eqb (slice_bytes text (en_name e')) (slice_bytes text name) = false.
+Proof. exact ok_refs_defined_first. Qed.
+Print Assumptions C08_ok_refs_defined_first.
+
+Theorem C08_ok_document_shape :
+  forall text dtd toks,
+  parse_document text (list token) rec_ev dtd [] = Ok toks ->
+  exists pre root post,
+    toks = pre ++ root ++ post /\
+    Forall is_prolog_tok pre /\ (dtd = false -> Forall is_misc_tok pre) /\
+    Forall is_misc_tok post /\
+    root_shape root post.
+Proof. exact ok_document_shape. Qed.
+Print Assumptions C08_ok_document_shape.
+
+Theorem C08_ok_no_text_before_root :
+  forall text dtd toks,
+  parse_document text (list token) rec_ev dtd [] = Ok toks ->
+  exists pre post, toks = pre ++ post /\ Forall is_prolog_tok pre /\
+    (post = [] \/ (exists p l st rest, post = TElementStart p l st :: rest) \/ Forall is_misc_tok post).
+Proof. exact ok_no_text_before_root. Qed.
+Print Assumptions C08_ok_no_text_before_root.
+
+End G1.
